@@ -85,7 +85,7 @@ def toAst (sc : Scope) : Expr → Option JsExpr
     | some jc, some ja, some jb => some (.cond jc ja jb)
     | _, _, _ => none
   | .dataRef _ key acc =>
-    if key == sIj then none
+    if key == sIj || key.contains 36 then none          -- `$ij` is not covered; a Soy name has no "$"
     else
       let base : JsExpr := match sc.lookup key with
         | some g => .local g
@@ -369,7 +369,9 @@ theorem walkExpr_renders (sc : Scope) :
       obtain ⟨j0, hacc, rfl⟩ := h
       unfold walkExpr
       refine (RunsSc.seq RunsSc.atOther (RunsSc.bindScope ?_)).cast (List.nil_append _)
-      have hkey : (key == b!"ij") = false := by simpa [sIj] using hij
+      have hkey : (key == b!"ij") = false := by
+        have : ¬ ((key == sIj) = true) := fun hh => hij (by simp [hh])
+        simpa [sIj] using this
       simp only [hkey, Bool.false_eq_true, if_false]
       cases hl : sc.lookup key with
       | none =>
@@ -585,7 +587,7 @@ theorem toJsV_obj {v : Val} {jk : List (Bytes × JVal)} (h : toJsV v = some (.ob
     JavaScript local the generator's scope assigns to it, or by `opt_data.k` if the scope does not
     bind it (a template parameter, or nothing at all: `undefined` on both sides) -/
 def EnvRel (sc : Scope) (env : Spec.Eval.Env) (jenv : JEnv) : Prop :=
-  ∀ k : Bytes, k ≠ sIj →
+  ∀ k : Bytes, k ≠ sIj → k.contains 36 = false →
     match sc.lookup k with
     | some g => ∃ kv, jenv.locals.find? (·.1 == g) = some kv ∧ toJsV (env.lookup k) = some kv.2
     | none => toJsV (env.lookup k) = some (prop jenv.optData k)
@@ -965,5 +967,379 @@ theorem accAst_corr (env : Spec.Eval.Env) (jenv : JEnv) : ∀ (acc : AccessList)
             obtain ⟨xs, rfl, hxs⟩ := toJsV_arr hb
             exact ⟨_, by unfold Spec.Eval.evalAcc; simp [Spec.Eval.access, hi, Spec.Eval.evalAcc], nth_corr xs js i hxs hi⟩
   | .cons (.expr _ _ _) _, x, j, base, jx, jv, h, _, _, _ => by simp [accAst] at h
+
+/-! ### the pure built-ins -/
+
+theorem roundHalfAway_one (i : Int) : Spec.Eval.roundHalfAway i 1 = i := by
+  unfold Spec.Eval.roundHalfAway
+  have hq : (2 * i.natAbs + 1) / (2 * 1) = i.natAbs := by omega
+  simp only [hq]
+  split <;> omega
+
+theorem roundSpec_int {i : Int} (h : exact i = true) : Spec.Eval.roundSpec (.int i) 0 = .val (.int i) := by
+  simp [Spec.Eval.roundSpec, roundHalfAway_one, intRes_of_exact h]
+
+theorem applyFn_isNonnull (args : List Val) : Spec.Eval.applyFn sIsNonnull args =
+    (match args with
+     | [.null] => .val (.bool false)
+     | [.undefined] => .val (.bool false)
+     | [_] => .val (.bool true)
+     | _ => .error) := rfl
+theorem applyFn_length (args : List Val) : Spec.Eval.applyFn sLength args =
+    (match args with
+     | [.list xs] => .val (.int xs.length)
+     | _ => .error) := rfl
+theorem applyFn_floor (args : List Val) : Spec.Eval.applyFn sFloor args =
+    (match args with
+     | [x] => Spec.Eval.floorSpec false x
+     | _ => .error) := rfl
+theorem applyFn_ceiling (args : List Val) : Spec.Eval.applyFn sCeiling args =
+    (match args with
+     | [x] => Spec.Eval.floorSpec true x
+     | _ => .error) := rfl
+theorem applyFn_round1 (x : Val) : Spec.Eval.applyFn sRound [x] = Spec.Eval.roundSpec x 0 := rfl
+theorem applyFn_min (a b : Int) : Spec.Eval.applyFn sMin [.int a, .int b] = .val (.int (if a < b then a else b)) := rfl
+theorem applyFn_max (a b : Int) : Spec.Eval.applyFn sMax [.int a, .int b] = .val (.int (if a > b then a else b)) := rfl
+
+/-- one-argument built-ins on corresponding values -/
+theorem apply1_corr (name : Bytes) (f : Fn1) (hf : fn1Of name = some f) (v : Val) (ja jv : JVal)
+    (hv : toJsV v = some ja) (h : apply1 f ja = .val jv) :
+    ∃ r, Spec.Eval.applyFn name [v] = .val r ∧ toJsV r = some jv := by
+  unfold fn1Of at hf
+  split at hf
+  · rename_i hn; have := beq_true_eq hn; subst this
+    simp only [Option.some.injEq] at hf; subst hf
+    simp only [apply1, JOut.val.injEq] at h; subst h
+    rw [applyFn_isNonnull]
+    cases v with
+    | int i => unfold toJsV at hv; split at hv <;> simp at hv; subst hv; exact ⟨.bool true, rfl, rfl⟩
+    | float f => simp [toJsV] at hv
+    | list xs => unfold toJsV at hv; cases hl : toJsList xs <;> simp [hl] at hv; subst hv; exact ⟨.bool true, rfl, rfl⟩
+    | map kvs => unfold toJsV at hv; cases hl : toJsKvs kvs <;> simp [hl] at hv; subst hv; exact ⟨.bool true, rfl, rfl⟩
+    | undefined => simp [toJsV] at hv; subst hv; exact ⟨.bool false, rfl, rfl⟩
+    | null => simp [toJsV] at hv; subst hv; exact ⟨.bool false, rfl, rfl⟩
+    | bool b => simp [toJsV] at hv; subst hv; exact ⟨.bool true, rfl, rfl⟩
+    | str s => simp [toJsV] at hv; subst hv; exact ⟨.bool true, rfl, rfl⟩
+  · split at hf
+    · rename_i hn; have := beq_true_eq hn; subst this
+      simp only [Option.some.injEq] at hf; subst hf
+      cases ja <;> simp [apply1] at h
+      rename_i js
+      obtain ⟨he, rfl⟩ := numRes_val h
+      obtain ⟨xs, rfl, hxs⟩ := toJsV_arr hv
+      rw [applyFn_length]
+      have hl := toJsList_length xs js hxs
+      exact ⟨.int xs.length, rfl, by rw [← hl]; exact toJsV_int he⟩
+    · have hint : ∀ (g : Fn1), (g = .floor ∨ g = .ceil ∨ g = .round) → apply1 g ja = .val jv →
+          ∃ i, v = .int i ∧ exact i = true ∧ jv = .num i := by
+        intro g hg hh
+        cases ja <;> (rcases hg with rfl | rfl | rfl <;> simp [apply1] at hh)
+        all_goals (subst hh; exact ⟨_, (toJsV_num hv).1, (toJsV_num hv).2, rfl⟩)
+      split at hf
+      · rename_i hn; have := beq_true_eq hn; subst this
+        simp only [Option.some.injEq] at hf; subst hf
+        obtain ⟨i, rfl, he, rfl⟩ := hint .floor (Or.inl rfl) h
+        exact ⟨.int i, by rw [applyFn_floor]; rfl, toJsV_int he⟩
+      · split at hf
+        · rename_i hn; have := beq_true_eq hn; subst this
+          simp only [Option.some.injEq] at hf; subst hf
+          obtain ⟨i, rfl, he, rfl⟩ := hint .ceil (Or.inr (Or.inl rfl)) h
+          exact ⟨.int i, by rw [applyFn_ceiling]; rfl, toJsV_int he⟩
+        · split at hf
+          · rename_i hn; have := beq_true_eq hn; subst this
+            simp only [Option.some.injEq] at hf; subst hf
+            obtain ⟨i, rfl, he, rfl⟩ := hint .round (Or.inr (Or.inr rfl)) h
+            exact ⟨.int i, by rw [applyFn_round1, roundSpec_int he], toJsV_int he⟩
+          · cases hf
+
+theorem apply2_corr (name : Bytes) (f : Fn2) (hf : fn2Of name = some f) (v1 v2 : Val) (ja jb jv : JVal)
+    (h1 : toJsV v1 = some ja) (h2 : toJsV v2 = some jb) (h : apply2 f ja jb = .val jv) :
+    ∃ r, Spec.Eval.applyFn name [v1, v2] = .val r ∧ toJsV r = some jv := by
+  cases ja <;> cases jb <;> simp [apply2] at h
+  rename_i x y
+  obtain ⟨rfl, hx⟩ := toJsV_num h1
+  obtain ⟨rfl, hy⟩ := toJsV_num h2
+  unfold fn2Of at hf
+  split at hf
+  · rename_i hn; have := beq_true_eq hn; subst this
+    simp only [Option.some.injEq] at hf; subst hf
+    simp only [JOut.val.injEq] at h; subst h
+    refine ⟨_, applyFn_min x y, ?_⟩
+    split <;> simp [toJsV, hx, hy]
+  · split at hf
+    · rename_i hn; have := beq_true_eq hn; subst this
+      simp only [Option.some.injEq] at hf; subst hf
+      simp only [JOut.val.injEq] at h; subst h
+      refine ⟨_, applyFn_max x y, ?_⟩
+      split <;> simp [toJsV, hx, hy]
+    · cases hf
+
+theorem isLoopFn_fn1 {name : Bytes} {f : Fn1} (h : fn1Of name = some f) : Spec.Eval.isLoopFn name = false := by
+  unfold fn1Of at h
+  repeat (first | (split at h; (rename_i hn; have := beq_true_eq hn; subst this; rfl)) | cases h)
+theorem isLoopFn_fn2 {name : Bytes} {f : Fn2} (h : fn2Of name = some f) : Spec.Eval.isLoopFn name = false := by
+  unfold fn2Of at h
+  repeat (first | (split at h; (rename_i hn; have := beq_true_eq hn; subst this; rfl)) | cases h)
+
+/-! ## the theorem -/
+
+/-- PARTIAL (C04, expression stage with variables): under the environment relation, whenever the
+    JavaScript text the generator writes for an expression of the fragment (`walkExpr_renders`) has
+    the value `jv` (semantics of the common subset, Spec/JsSemRef), the Soy specification evaluates
+    the expression to a value whose JSON image is `jv`. -/
+theorem gen_correct_refs_partial (sc : Scope) (env : Spec.Eval.Env) (jenv : JEnv) (hrel : EnvRel sc env jenv) :
+    ∀ (e : Expr) (j : JsExpr) (jv : JVal), toAst sc e = some j → eval jenv j = .val jv →
+      ∃ v, Spec.Eval.eval env e = .val v ∧ toJsV v = some jv
+  | .null _, j, jv, h, hj => by
+    simp only [toAst, Option.some.injEq] at h; subst h
+    simp only [eval, JOut.val.injEq] at hj; subst hj
+    exact ⟨.null, by simp [Spec.Eval.eval], rfl⟩
+  | .bool _ b, j, jv, h, hj => by
+    simp only [toAst, Option.some.injEq] at h; subst h
+    simp only [eval, JOut.val.injEq] at hj; subst hj
+    exact ⟨.bool b, by simp [Spec.Eval.eval], rfl⟩
+  | .int _ v, j, jv, h, hj => by
+    simp only [toAst, Option.some.injEq] at h; subst h
+    unfold eval at hj
+    split at hj
+    · rename_i he
+      simp only [JOut.val.injEq] at hj; subst hj
+      exact ⟨.int v, by simp [Spec.Eval.eval], toJsV_int he⟩
+    · cases hj
+  | .str _ _ v, j, jv, h, hj => by
+    simp only [toAst, Option.some.injEq] at h; subst h
+    simp only [eval, JOut.val.injEq] at hj; subst hj
+    exact ⟨.str v, by simp [Spec.Eval.eval], rfl⟩
+  | .neg _ a, j, jv, h, hj => by
+    simp only [toAst, Option.map_eq_some_iff] at h
+    obtain ⟨ja, ha, rfl⟩ := h
+    unfold eval at hj
+    obtain ⟨va, hea, hj⟩ := bind_val hj
+    obtain ⟨v, hv, hvj⟩ := gen_correct_refs_partial sc env jenv hrel a ja va ha hea
+    cases va <;> simp at hj
+    obtain ⟨he, rfl⟩ := numRes_val hj
+    obtain ⟨rfl, _⟩ := toJsV_num hvj
+    exact ⟨.int _, by simp [Spec.Eval.eval, hv, Spec.Eval.Out.bind, intRes_of_exact he], toJsV_int he⟩
+  | .not _ a, j, jv, h, hj => by
+    simp only [toAst, Option.map_eq_some_iff] at h
+    obtain ⟨ja, ha, rfl⟩ := h
+    unfold eval at hj
+    obtain ⟨va, hea, hj⟩ := bind_val hj
+    simp only [JOut.val.injEq] at hj; subst hj
+    obtain ⟨v, hv, hvj⟩ := gen_correct_refs_partial sc env jenv hrel a ja va ha hea
+    exact ⟨.bool _, by simp [Spec.Eval.eval, hv, Spec.Eval.Out.bind, truthy_toBoolean v va hvj], rfl⟩
+  | .tern _ c a b, j, jv, h, hj => by
+    unfold toAst at h
+    cases hjc : toAst sc c with
+    | none => simp [hjc] at h
+    | some jc =>
+      cases hja : toAst sc a with
+      | none => simp [hjc, hja] at h
+      | some ja =>
+        cases hjb : toAst sc b with
+        | none => simp [hjc, hja, hjb] at h
+        | some jb =>
+          simp only [hjc, hja, hjb, Option.some.injEq] at h
+          subst h
+          unfold eval at hj
+          obtain ⟨vc, hec, hj⟩ := bind_val hj
+          obtain ⟨v, hv, hvj⟩ := gen_correct_refs_partial sc env jenv hrel c jc vc hjc hec
+          have ht := truthy_toBoolean v vc hvj
+          split at hj
+          · rename_i htb
+            obtain ⟨w, hw, hwj⟩ := gen_correct_refs_partial sc env jenv hrel a ja jv hja hj
+            exact ⟨w, by simp [Spec.Eval.eval, hv, Spec.Eval.Out.bind, ht, htb, hw], hwj⟩
+          · rename_i htb
+            obtain ⟨w, hw, hwj⟩ := gen_correct_refs_partial sc env jenv hrel b jb jv hjb hj
+            exact ⟨w, by simp [Spec.Eval.eval, hv, Spec.Eval.Out.bind, ht, htb, hw], hwj⟩
+  | .bin op _ a b, j, jv, h, hj => by
+    unfold toAst at h
+    cases hja : toAst sc a with
+    | none => cases op <;> simp [hja] at h
+    | some ja =>
+      cases hjb : toAst sc b with
+      | none => cases op <;> simp [hja, hjb] at h
+      | some jb =>
+        have iha := fun va => gen_correct_refs_partial sc env jenv hrel a ja va hja
+        have ihb := fun vb => gen_correct_refs_partial sc env jenv hrel b jb vb hjb
+        cases hop : opOf op with
+        | none =>
+          cases op <;> simp [opOf] at hop
+          · simp [hja, hjb, opOf] at h
+          · -- elvis
+            simp only [hja, hjb, Option.some.injEq] at h
+            subst h
+            unfold eval at hj
+            obtain ⟨va, hea, hj⟩ := bind_val hj
+            obtain ⟨v, hv, hvj⟩ := iha va hea
+            by_cases hn : isNullish va = true
+            · simp only [hn, if_true] at hj
+              obtain ⟨w, hw, hwj⟩ := ihb jv hj
+              rcases (nullish_iff hvj).mp hn with rfl | rfl <;>
+                exact ⟨w, by simp [Spec.Eval.eval, hv, Spec.Eval.Out.bind, hw], hwj⟩
+            · simp only [hn, Bool.false_eq_true, if_false] at hj
+              rw [hea] at hj
+              simp only [JOut.val.injEq] at hj; subst hj
+              have hnn : ¬ (v = .undefined ∨ v = .null) := fun hh => hn ((nullish_iff hvj).mpr hh)
+              refine ⟨v, ?_, hvj⟩
+              cases v <;> first
+                | (exfalso; exact hnn (Or.inl rfl))
+                | (exfalso; exact hnn (Or.inr rfl))
+                | simp [Spec.Eval.eval, hv, Spec.Eval.Out.bind]
+        | some jo =>
+          by_cases hand : jo = .and
+          · subst hand
+            cases op <;> simp [opOf] at hop
+            simp only [hja, hjb, opOf, Option.some.injEq] at h
+            subst h
+            unfold eval at hj
+            obtain ⟨va, hea, hj⟩ := bind_val hj
+            obtain ⟨v, hv, hvj⟩ := iha va hea
+            have hb : ∃ x, va = .bool x := by
+              cases va with
+              | bool x => exact ⟨x, rfl⟩
+              | _ => simp at hj
+            obtain ⟨x, rfl⟩ := hb
+            have := toJsV_bool hvj
+            subst this
+            cases x with
+            | false =>
+              simp only [JOut.val.injEq] at hj
+              subst hj
+              exact ⟨.bool false, by simp [Spec.Eval.eval, hv, Spec.Eval.Out.bind, Spec.Eval.truthy], rfl⟩
+            | true =>
+              simp only at hj
+              obtain ⟨vb, heb, hj⟩ := bind_val hj
+              obtain ⟨w, hw, hwj⟩ := ihb vb heb
+              cases vb <;> simp at hj
+              subst hj
+              have := toJsV_bool hwj
+              subst this
+              exact ⟨.bool _, by simp [Spec.Eval.eval, hv, hw, Spec.Eval.Out.bind, Spec.Eval.truthy], rfl⟩
+          · by_cases hor : jo = .or
+            · subst hor
+              cases op <;> simp [opOf] at hop
+              simp only [hja, hjb, opOf, Option.some.injEq] at h
+              subst h
+              unfold eval at hj
+              obtain ⟨va, hea, hj⟩ := bind_val hj
+              obtain ⟨v, hv, hvj⟩ := iha va hea
+              have hb : ∃ x, va = .bool x := by
+                cases va with
+                | bool x => exact ⟨x, rfl⟩
+                | _ => simp at hj
+              obtain ⟨x, rfl⟩ := hb
+              have := toJsV_bool hvj
+              subst this
+              cases x with
+              | true =>
+                simp only [JOut.val.injEq] at hj
+                subst hj
+                exact ⟨.bool true, by simp [Spec.Eval.eval, hv, Spec.Eval.Out.bind, Spec.Eval.truthy], rfl⟩
+              | false =>
+                simp only at hj
+                obtain ⟨vb, heb, hj⟩ := bind_val hj
+                obtain ⟨w, hw, hwj⟩ := ihb vb heb
+                cases vb <;> simp at hj
+                subst hj
+                have := toJsV_bool hwj
+                subst this
+                exact ⟨.bool _, by simp [Spec.Eval.eval, hv, hw, Spec.Eval.Out.bind, Spec.Eval.truthy], rfl⟩
+            · have hstrict : eval jenv (.bin jo ja jb) =
+                  (eval jenv ja).bind fun va => (eval jenv jb).bind fun vb => binop jo va vb := by
+                cases jo <;> first | rfl | exact absurd rfl hand | exact absurd rfl hor
+              have hj' : eval jenv (.bin jo ja jb) = .val jv := by
+                cases op <;> simp [opOf] at hop <;> subst hop <;>
+                  (simp only [hja, hjb, opOf, Option.some.injEq] at h; subst h; exact hj)
+              rw [hstrict] at hj'
+              obtain ⟨va, hea, hj'⟩ := bind_val hj'
+              obtain ⟨vb, heb, hj'⟩ := bind_val hj'
+              obtain ⟨v1, hv1, hvj1⟩ := iha va hea
+              obtain ⟨v2, hv2, hvj2⟩ := ihb vb heb
+              obtain ⟨v, hv, hvj⟩ := binop_corr op jo hop hand hor v1 v2 va vb jv hvj1 hvj2 hj'
+              refine ⟨v, ?_, hvj⟩
+              cases op <;> simp [opOf] at hop <;> subst hop <;>
+                first
+                | exact absurd rfl hand
+                | exact absurd rfl hor
+                | simp [Spec.Eval.eval, hv1, hv2, Spec.Eval.Out.bind, hv]
+  | .dataRef dpos key acc, j, jv, h, hj => by
+    unfold toAst at h
+    split at h
+    · cases h
+    · rename_i hij
+      simp only [Option.map_eq_some_iff] at h
+      obtain ⟨j0, hacc, rfl⟩ := h
+      have hj0 : eval jenv j0 = .val jv := by
+        cases hns : anyNullSafe acc <;> simp only [hns, Bool.false_eq_true, if_false, if_true] at hj
+        · exact hj
+        · unfold eval at hj; exact hj
+      have hij1 : ¬ ((key == sIj) = true) := fun hh => hij (by simp [hh])
+      have hdollar : key.contains 36 = false := by
+        cases hc : key.contains 36 with
+        | false => rfl
+        | true => exact absurd (by rw [hc]; simp) hij
+      have hkey : key ≠ sIj := by simpa using hij1
+      have hspec : Spec.Eval.eval env (.dataRef dpos key acc) = Spec.Eval.evalAcc env acc (env.lookup key) := by
+        have : (key == Spec.Eval.sIj) = false := by simpa [sIj, Spec.Eval.sIj] using hij1
+        simp [Spec.Eval.eval, this]
+      rw [hspec]
+      have hr := hrel key hkey hdollar
+      cases hl : sc.lookup key with
+      | none =>
+        simp only [hl] at hr hacc
+        exact accAst_corr env jenv acc (.optData key) j0 (env.lookup key) _ jv hacc (by simp [eval]) hr hj0
+      | some g =>
+        simp only [hl] at hr hacc
+        obtain ⟨kv, hfind, hkv⟩ := hr
+        exact accAst_corr env jenv acc (.local g) j0 (env.lookup key) kv.2 jv hacc (by simp [eval, hfind]) hkv hj0
+  | .func p name args, j, jv, h, hj => by
+    unfold toAst at h
+    cases args with
+    | nil => simp at h
+    | cons a r =>
+      cases r with
+      | nil =>
+        simp only at h
+        cases hf : fn1Of name with
+        | none => simp [hf] at h
+        | some f1 =>
+          cases hja : toAst sc a with
+          | none => simp [hf, hja] at h
+          | some ja =>
+            simp only [hf, hja, Option.some.injEq] at h
+            subst h
+            unfold eval at hj
+            obtain ⟨va, hea, hj⟩ := bind_val hj
+            obtain ⟨v, hv, hvj⟩ := gen_correct_refs_partial sc env jenv hrel a ja va hja hea
+            obtain ⟨r, hr, hrj⟩ := apply1_corr name f1 hf v va jv hvj hj
+            exact ⟨r, by simp [Spec.Eval.eval, isLoopFn_fn1 hf, Spec.Eval.evalList, hv, Spec.Eval.Out.bind, hr], hrj⟩
+      | cons b r2 =>
+        cases r2 with
+        | cons _ _ => simp at h
+        | nil =>
+          simp only at h
+          cases hf : fn2Of name with
+          | none => simp [hf] at h
+          | some f2 =>
+            cases hja : toAst sc a with
+            | none => simp [hf, hja] at h
+            | some ja =>
+              cases hjb : toAst sc b with
+              | none => simp [hf, hja, hjb] at h
+              | some jb =>
+                simp only [hf, hja, hjb, Option.some.injEq] at h
+                subst h
+                unfold eval at hj
+                obtain ⟨va, hea, hj⟩ := bind_val hj
+                obtain ⟨vb, heb, hj⟩ := bind_val hj
+                obtain ⟨v1, hv1, hvj1⟩ := gen_correct_refs_partial sc env jenv hrel a ja va hja hea
+                obtain ⟨v2, hv2, hvj2⟩ := gen_correct_refs_partial sc env jenv hrel b jb vb hjb heb
+                obtain ⟨r, hr, hrj⟩ := apply2_corr name f2 hf v1 v2 va vb jv hvj1 hvj2 hj
+                exact ⟨r, by simp [Spec.Eval.eval, isLoopFn_fn2 hf, Spec.Eval.evalList, hv1, hv2, Spec.Eval.Out.bind, hr], hrj⟩
+  | .float _ _, j, jv, h, _ => by simp [toAst] at h
+  | .global _ _, j, jv, h, _ => by simp [toAst] at h
+  | .list _ _, j, jv, h, _ => by simp [toAst] at h
+  | .map _ _, j, jv, h, _ => by simp [toAst] at h
 
 end SoyVerif.Props.C04c
